@@ -741,6 +741,10 @@ def contract(F, R):
                 mx = any(term_mentions_max(b, l) for l in other)
                 if not mx:
                     continue
+                mine = oa if a_sz else ob
+                if any((l[0] == 'binop' and l[1] in ('Sub', 'SubWithOverflow', 'Div', 'Shr')) or (l[0] == 'call' and re.search(r'::(saturating_sub|checked_sub|wrapping_sub)$', l[1] or '')) for l in mine):
+                    why = 'the value compared with the maximum is the computed size minus something (e.g. without the payload): a packet that is over the limit only because of that part passes the check'
+                    continue
                 r = bool_branch(b, bi, s['lhs']['l'])
                 if not r:
                     continue
@@ -1104,6 +1108,11 @@ def only_diagnostics(F, R):
         R.ob('C09.only-diagnostics-dropped', 'v5::Codec::encodev|%s|loses-user-properties-and-reason-string' % v, need <= got,
              'after a CONNECT with Request Problem Information = 0 this acknowledgement still carries %s' % sorted(f for _, f in need - got), b.loc(tt))
     R.counts['C09.only-diagnostics-dropped:mutations'] = len(mut)
+    # the packet is stripped before its size is computed: the lengths in the header describe what is written
+    sizers = [bi for bi, t in b.calls() if re.search(r'EncodeLtd>?::encoded_size$', callee_name(t) or '')]
+    late = [bi for bi, base, field, var in mut if any(bi in b.reachable_after(sz) for sz in sizers)]
+    R.ob('C09.only-diagnostics-dropped', 'v5::Codec::encodev|stripped-before-the-size-is-computed', bool(sizers) and not late,
+         'the Reason String / User Properties are removed after encoded_size() was evaluated: Remaining Length and Property Length announce bytes that are not written', b.loc(late[0]) if late else b.loc(tt))
     # where the flag is written
     dec = F.one(r'^<v5::codec::codec::Codec as ntex_codec::Decoder>::decode$')
     sets = []
